@@ -1,5 +1,265 @@
-(* C05 - placeholder while the proofs are being written; replaced below. *)
-From Coq Require Import List.
-From PMS Require Import Model.Gateway.
-Theorem C05_placeholder : True. Proof. exact I. Qed.
-Print Assumptions C05_placeholder.
+(* C05 - every reply is the prescribed one, well-formed and correctly addressed.  Statements only.
+   Machine: Model/Gateway.v (logic, all handlers, is_sensor, _route_message, set_child_value,
+   wake-up flush, both task flavours) over the GENERATED tables and registry.  The reply table is
+   Spec/ReplyTable.v (hand-written).  Oracles (awesomeversion, float(), clock) are universally
+   quantified.  Proofs: Proofs/ReplyBase.v, ReplyProofs.v, ReplyInv.v, ReplyAddr.v. *)
+From Coq Require Import List NArith ZArith Bool String.
+From PMS Require Import Base.PyStr Base.PyInt Base.Exn Model.Codec Model.TableTypes Gen.Tables Model.Validate
+  Model.Oracles Model.Hex Model.Ota Model.Gateway Spec.SerialApi Spec.ReplyTable
+  Proofs.CodecProofs Proofs.ValidateProofs Proofs.GwInv
+  Proofs.ReplyBase Proofs.ReplyProofs Proofs.ReplyInv Proofs.ReplyAddr.
+Import ListNotations.
+Open Scope Z_scope.
+
+(* ---------------------------------------------------------------- 0. finite facts *)
+(* cfgv v g : g runs one of the five configurations (table of version v, the >= 2.0 flag of v) *)
+Theorem C05_configurations : forall v g, cfgv v g <-> (cf_tab (g_cf g) = tab_of v /\ cf_ge20 (g_cf g) = ge20 v).
+Proof. exact cfgv_iff. Qed.
+
+(* which handler function the generated registry resolves to, per version, against the
+   hand-written table: message types ... *)
+Theorem C05_type_resolution : forall v,
+  type_handler (tab_of v) 0 = Some HPresentation /\ type_handler (tab_of v) 1 = Some HSet /\
+  type_handler (tab_of v) 2 = Some HReq /\ type_handler (tab_of v) 3 = Some HInternal /\
+  type_handler (tab_of v) 4 = Some HStream.
+Proof. exact k_type_handlers. Qed.
+
+(* ... every internal sub-type of the version (act_of names what each handler function does) ... *)
+Theorem C05_internal_resolution : forall v s, between 0 (max_sub v 3) s = true ->
+  act_of (sub_handler (tab_of v) 3 s) = Some (internal_action v s).
+Proof. exact internal_resolution. Qed.
+
+(* ... and every stream sub-type *)
+Theorem C05_stream_resolution : forall v s, between 0 (max_sub v 4) s = true ->
+  sub_handler (tab_of v) 4 s =
+  (if s =? 0 then Some HFwConfigReq else if s =? 2 then Some HFwReq else None).
+Proof. exact stream_resolution. Qed.
+
+(* Gateway._route_message in closed form: presentations are dropped; a command for a sleeping node
+   is appended to that node's queue unless it is a stream command; everything else passes *)
+Theorem C05_route_closed : forall v g x, cfgv v g ->
+  route g x = if m_type x =? 0 then (g, None)
+              else if withheld (vsleep g) x then (enqueue g x, None) else (g, Some x).
+Proof. exact route_closed. Qed.
+
+(* ---------------------------------------------------------------- 1. reply_table *)
+(* For each of the five configurations, all oracles and clocks, every state with the C01
+   invariant and every accepted line whose handling does not include the wake-up flush (C08):
+   the strings handed to tasks.add_job inside the call (ns: sent at once in the asyncio flavour,
+   queued as send jobs in the threaded flavour), followed by the reply returned to the caller,
+   are exactly the encodings of the prescribed messages that routing lets through, in order; and
+   every node's hold queue grows by exactly the encodings of the prescribed messages withheld
+   for it.  Nothing else is sent, queued or withheld. *)
+Theorem C05_reply_table :
+  forall orc clock v g l m g' r,
+    cfgv v g -> Inv orc g -> accepted orc g l m ->
+    wakes_up v (view_of clock g) m = false ->
+    logic orc clock g l = Ok (g', r) ->
+    let P := prescribed v (view_of clock g) m in
+    exists ns,
+      g_cf g' = g_cf g /\
+      (if cf_async (g_cf g)
+       then sends (g_log g') = sends (g_log g) ++ ns /\ g_jobs g' = g_jobs g
+       else sends (g_log g') = sends (g_log g) /\ g_jobs g' = g_jobs g ++ map JSend ns) /\
+      ns ++ olist r = emitted_part (vw_sleeping (view_of clock g)) P /\
+      (forall k, queue_of g' k = queue_of g k ++ withheld_part (vw_sleeping (view_of clock g)) k P).
+Proof. exact reply_table. Qed.
+
+(* "exactly one presentation request and nothing else": the table never prescribes two commands *)
+Theorem C05_at_most_one_command : forall v vw m, (List.length (prescribed v vw m) <= 1)%nat.
+Proof. exact prescribed_length. Qed.
+
+(* ---------------------------------------------------------------- 2. no_spurious_output *)
+(* a line that does not decode, or does not validate for the configured version: same state
+   (nothing sent, nothing queued, nothing withheld), no reply *)
+Theorem C05_no_spurious_output_rejected :
+  forall orc clock g l,
+    (decode l = None \/ exists m, decode l = Some m /\ gvalidate orc g m = false) ->
+    logic orc clock g l = Ok (g, None).
+Proof. exact rejected_is_noop. Qed.
+
+(* an accepted message for which the table prescribes nothing *)
+Theorem C05_no_spurious_output_silent :
+  forall orc clock v g l m g' r,
+    cfgv v g -> Inv orc g -> accepted orc g l m ->
+    wakes_up v (view_of clock g) m = false ->
+    prescribed v (view_of clock g) m = [] ->
+    logic orc clock g l = Ok (g', r) ->
+    r = None /\ sends (g_log g') = sends (g_log g) /\ g_jobs g' = g_jobs g /\
+    forall k, queue_of g' k = queue_of g k.
+Proof. exact silent_outside_table. Qed.
+
+(* ---------------------------------------------------------------- 3. emitted_canonical_valid *)
+(* the invariant on stored data (Inv5): node ids in 0..255; every reported value was accepted as
+   a set message of its node/child/sub-type and is carriable; every pending desired value is
+   carriable (that it validates is Inv of C01); every withheld string, every queued send job and
+   every string in the transport log is the encoding of a carriable message that validates;
+   firmware data are bytes.  It holds in every reachable state. *)
+Theorem C05_invariant_reachable :
+  forall orc clock v cf ops,
+    cf_tab cf = tab_of v -> cf_ge20 cf = ge20 v -> Forall (op_wire cf) ops ->
+    let g := run orc clock (gw_init cf) ops in Inv5 orc v g /\ Inv orc g /\ cfgv v g.
+Proof. exact reachable_Inv5. Qed.
+
+(* one dispatcher call keeps it, and its reply string is such an encoding (all handlers,
+   including the wake-up flush) *)
+Theorem C05_logic_keeps_invariant :
+  forall orc clock v g l g' r,
+    cfgv v g -> Inv orc g -> Inv5 orc v g -> logic orc clock g l = Ok (g', r) ->
+    Inv5 orc v g' /\ forall s, r = Some s -> good orc v s.
+Proof. exact logic5. Qed.
+
+(* Over ALL histories from the initial state, both flavours, any inbound text, controller calls
+   with carriable values (op_wire): every string ever handed to the transport, every queued send
+   job and every withheld string is canonical, decodes to the message it encodes, which validates
+   for the configured version and carries a node id in 0..255 (withheld: the id of the node in
+   whose queue it waits).  _partial: op_wire also demands, on a >= 2.0 gateway, that the node id
+   passed to set_child_value is in 0..255 - without it the statement is false (below). *)
+Theorem C05_emitted_canonical_valid_partial :
+  forall orc clock cf ops,
+    cfg_ok cf -> Forall (op_wire cf) ops ->
+    let g := run orc clock (gw_init cf) ops in
+    (forall l, In (ESend l) (g_log g) -> line_ok orc g l) /\
+    (forall l, In (JSend l) (g_jobs g) -> line_ok orc g l) /\
+    (forall k nd l, get_node g k = Some nd -> In l (n_queue nd) ->
+       line_ok orc g l /\ exists m, decode l = Some m /\ m_node m = k).
+Proof. exact emitted_canonical_valid_partial. Qed.
+
+(* FINDING: set_child_value(300, 0, 2, "1") on a 2.2 gateway hands "300;255;3;0;19;\n" to the
+   transport: a presentation request to a node id that no protocol version accepts. *)
+Theorem C05_emitted_canonical_valid_refuted :
+  exists cf ops l m,
+    cfg_ok cf /\
+    Forall (fun o => match o with
+                     | SetChild _ _ _ x _ _ => carriable x
+                     | UpdateFw _ _ _ b => image_ok b
+                     | _ => True
+                     end) ops /\
+    let g := run no_oracles 0 (gw_init cf) ops in
+    In (ESend l) (g_log g) /\ decode l = Some m /\ gvalidate no_oracles g m = false.
+Proof. exact emitted_canonical_valid_refuted. Qed.
+
+(* the building blocks: each prescribed kind of reply validates for every version that sends it *)
+Theorem C05_replies_validate :
+  forall orc v n, 0 <= n <= 255 ->
+    (v_ge20 v = true -> goodmsg orc v (presentation_request n) /\ goodmsg orc v (discover_request 255)) /\
+    goodmsg orc v (reboot_order n) /\
+    (forall b : bool, goodmsg orc v (mkMsg n 255 3 0 6 (s2p (if b then "M" else "I")%string))) /\
+    (forall clock, goodmsg orc v (mkMsg n 255 3 0 1 (print clock))) /\
+    (forall c i, 1 <= i <= 254 -> goodmsg orc v (mkMsg n c 3 0 4 (print i))).
+Proof. exact replies_validate. Qed.
+
+(* validation depends on the ack flag only through "ack is 0 or 1": a value accepted in a set
+   message is accepted in the reply to a request, whatever the request's ack flag *)
+Theorem C05_validate_ack_independent :
+  forall orc v n c a a' s p, vld orc v (mkMsg n c 1 a s p) = true -> (a' = 0 \/ a' = 1) ->
+    vld orc v (mkMsg n c 1 a' s p) = true.
+Proof. exact vld_set_ack. Qed.
+
+(* ---------------------------------------------------------------- 4. reply_addressing *)
+(* the table: every prescribed command goes to the sender of the inbound message, except the
+   discover request (broadcast) *)
+Theorem C05_prescribed_addressing :
+  forall v vw m x, In x (prescribed v vw m) ->
+    m_node x = m_node m \/
+    (x = discover_request (m_child m) /\ m_type m = 3 /\ internal_action v (m_sub m) = Discover).
+Proof. exact prescribed_addressing. Qed.
+
+(* a presentation request goes to the sender, on >= 2.0 only, and only when the sender or the
+   child concerned is not known *)
+Theorem C05_presentation_request_addressing :
+  forall v vw m x, In x (prescribed v vw m) -> m_type x = 3 -> m_sub x = 19 ->
+    x = presentation_request (m_node m) /\ v_ge20 v = true /\
+    (known vw (m_node m) = false \/ vw_child vw (m_node m) (m_child m) = false).
+Proof. exact prescribed_presentation_request. Qed.
+
+(* the machine: every string one call emits or withholds encodes a prescribed message addressed
+   to the sender (withheld: in the sender's queue), or is the broadcast discover request *)
+Theorem C05_reply_addressing :
+  forall orc clock v g l m g' r,
+    cfgv v g -> Inv orc g -> accepted orc g l m ->
+    wakes_up v (view_of clock g) m = false ->
+    logic orc clock g l = Ok (g', r) ->
+    exists ns,
+      (if cf_async (g_cf g)
+       then sends (g_log g') = sends (g_log g) ++ ns /\ g_jobs g' = g_jobs g
+       else sends (g_log g') = sends (g_log g) /\ g_jobs g' = g_jobs g ++ map JSend ns) /\
+      (forall s, In s (ns ++ olist r) ->
+         exists x, s = encode x /\ In x (prescribed v (view_of clock g) m) /\
+                   (m_node x = m_node m \/ (x = discover_request (m_child m) /\ m_node x = 255))) /\
+      (forall k, exists q, queue_of g' k = queue_of g k ++ q /\
+         forall s, In s q ->
+           exists x, s = encode x /\ In x (prescribed v (view_of clock g) m) /\ m_node x = k /\
+                     (k = m_node m \/ (x = discover_request (m_child m) /\ k = 255))).
+Proof. exact reply_addressing. Qed.
+
+(* ---------------------------------------------------------------- non-vacuity *)
+Example C05_ex_req_answered :
+  let g := run no_oracles 0 (gw_init cf22) hist1 in
+  new_sends g (step no_oracles 0 g (Recv (s2p "1;0;2;1;2;"))) = [s2p "1;0;1;1;2;1" ++ [nl]] /\
+  prescribed V22 (view_of 0 g) (mkMsg 1 0 2 1 2 []) = [mkMsg 1 0 1 1 2 (s2p "1")].
+Proof. exact ex_req_answered. Qed.
+
+Example C05_ex_req_no_value :
+  let g := run no_oracles 0 (gw_init cf22) hist1 in
+  new_sends g (step no_oracles 0 g (Recv (s2p "1;0;2;0;3;"))) = [] /\
+  prescribed V22 (view_of 0 g) (mkMsg 1 0 2 0 3 []) = [].
+Proof. exact ex_req_no_value. Qed.
+
+Example C05_ex_unknown_child_22 :
+  let g := run no_oracles 0 (gw_init cf22) hist1 in
+  new_sends g (step no_oracles 0 g (Recv (s2p "1;7;2;0;2;"))) = [s2p "1;255;3;0;19;" ++ [nl]] /\
+  prescribed V22 (view_of 0 g) (mkMsg 1 7 2 0 2 []) = [presentation_request 1].
+Proof. exact ex_unknown_child_22. Qed.
+
+Example C05_ex_unknown_child_15 :
+  let g := run no_oracles 0 (gw_init cf15) hist1 in
+  new_sends g (step no_oracles 0 g (Recv (s2p "1;7;2;0;2;"))) = [] /\
+  prescribed V15 (view_of 0 g) (mkMsg 1 7 2 0 2 []) = [].
+Proof. exact ex_unknown_child_15. Qed.
+
+Example C05_ex_internal_replies :
+  let g := run no_oracles 1700000000 (gw_init cf22) hist1 in
+  new_sends g (run no_oracles 1700000000 g
+                 [Recv (s2p "1;255;3;0;6;0"); Recv (s2p "1;255;3;1;1;"); Recv (s2p "255;255;3;0;3;");
+                  Recv (s2p "0;255;3;0;14;Gateway startup complete.")]) =
+  [s2p "1;255;3;0;6;M" ++ [nl]; s2p "1;255;3;0;1;1700000000" ++ [nl]; s2p "255;255;3;0;4;2" ++ [nl];
+   s2p "255;255;3;0;20;" ++ [nl]].
+Proof. exact ex_internal_replies. Qed.
+
+Example C05_ex_threaded_nested :
+  let g := run no_oracles 0 (gw_init cf22t) [Recv (s2p "9;3;1;0;2;1"); Pump] in
+  g_jobs g = [JSend (s2p "9;255;3;0;19;" ++ [nl])] /\ sends (g_log g) = [] /\
+  sends (g_log (step no_oracles 0 g Pump)) = [s2p "9;255;3;0;19;" ++ [nl]].
+Proof. exact ex_threaded_nested. Qed.
+
+Example C05_ex_withheld :
+  let g := run no_oracles 0 (gw_init cf22) (hist1 ++ [Recv (s2p "1;255;3;0;32;500")]) in
+  let g' := step no_oracles 0 g (Recv (s2p "1;0;2;0;2;")) in
+  vsleep g 1 = true /\ new_sends g g' = [] /\ queue_of g' 1 = queue_of g 1 ++ [s2p "1;0;1;0;2;1" ++ [nl]].
+Proof. exact ex_withheld. Qed.
+
+Example C05_ex_reply_table_premises :
+  let g := run no_oracles 0 (gw_init cf22) hist1 in
+  cfgv V22 g /\ accepted no_oracles g (s2p "1;0;2;1;2;") (mkMsg 1 0 2 1 2 []) /\
+  wakes_up V22 (view_of 0 g) (mkMsg 1 0 2 1 2 []) = false /\ g_sensors g <> [].
+Proof. exact ex_reply_table_premises. Qed.
+
+Print Assumptions C05_configurations.
+Print Assumptions C05_type_resolution.
+Print Assumptions C05_internal_resolution.
+Print Assumptions C05_stream_resolution.
+Print Assumptions C05_route_closed.
+Print Assumptions C05_reply_table.
+Print Assumptions C05_at_most_one_command.
+Print Assumptions C05_no_spurious_output_rejected.
+Print Assumptions C05_no_spurious_output_silent.
+Print Assumptions C05_invariant_reachable.
+Print Assumptions C05_logic_keeps_invariant.
+Print Assumptions C05_emitted_canonical_valid_partial.
+Print Assumptions C05_emitted_canonical_valid_refuted.
+Print Assumptions C05_replies_validate.
+Print Assumptions C05_validate_ack_independent.
+Print Assumptions C05_prescribed_addressing.
+Print Assumptions C05_presentation_request_addressing.
+Print Assumptions C05_reply_addressing.
